@@ -93,14 +93,14 @@ def _arbitrary(draw, shard, nshards):
             remaining, in_bar = cap, 0
         elif kind == "tsg" and in_bar == 0:
             cap = remaining = 4 * ppqn * int(t[4:6]) // 8
-    return {"kind": "arbitrary", "cfg": cfg, "stream": stream, "impute": draw(st.booleans())}
+    return {"kind": "arbitrary", "cfg": cfg, "stream": stream, "impute": draw(st.booleans()), "warm": draw(st.integers(0, 2)) == 0}
 
 
 @st.composite
 def _tokenised(draw, shard, nshards):
     cfg = draw(T.config(shard=shard, nshards=nshards, max_tracks=3))
     return {"kind": "tokenised", "cfg": cfg, "piece": draw(T.piece(cfg, max_bars=4, max_notes=7, noise=False)),
-            "impute": draw(st.booleans())}
+            "impute": draw(st.booleans()), "warm": draw(st.integers(0, 2)) == 0}
 
 
 def strategy(params, shard, nshards):
@@ -145,6 +145,15 @@ def check(case):
             return out
         bars = case["piece"]["bars"]
     n = len(stream)
+    if case.get("warm"):
+        # the tokeniser object has annotated and detokenised another stream before (the same tokens backwards)
+        out.label("reused-tokeniser")
+        for f in (lambda: tok.get_info(list(stream[::-1]), flag_impute_values=not case["impute"]),
+                  lambda: tok.detokenise(list(stream[::-1]))):
+            try:
+                f()
+            except Exception:
+                pass
     try:
         info = tok.get_info(list(stream), flag_impute_values=case["impute"])
     except Exception as e:
